@@ -67,7 +67,9 @@ int truth(const Val &a)
     if (!a.ok) {
         return -1;
     }
-    if (a.v == 0.0 && a.e == 0.0) {
+    if (a.v == 0.0 && a.e < 1e-290) {
+        // an exact zero carried through operations that map 0 to 0 (0*x, abs(0), sin(0) ...): the error terms added on
+        // the way are multiples of the smallest denormal, no faithful evaluation gives anything but 0
         return 0;
     }
     if (std::fabs(a.v) > a.e + 1e-12) {
